@@ -22,6 +22,11 @@ public:
 #if CONTACT_MODEL_INDEX == 1 || CONTACT_MODEL_INDEX == 2
     static vec3& node_normal(node& n) { return n.normal_; }
 #endif
+#if CONTACT_MODEL_INDEX == 1
+    // what contact_node_node_via_coupling::run does to every live node at the start of a contact phase
+    static void reset_coupling(node& n) { n.coupled_node_ = std::nullopt; n.squared_distance_to_closest_node_ = std::numeric_limits<double>::max(); }
+    static double closest_d2(const node& n) { return n.squared_distance_to_closest_node_; }
+#endif
 #if DYNAMIC_MODEL_INDEX == 0
     static vec3& momentum(node& n) { return n.momentum_; }
 #endif
